@@ -793,14 +793,19 @@ class XsdElement(XsdComponent, ParticleMixin,
                 value, content = content[0][1], None
 
             fixed_value = value
-            if fixed_value is None and obj.text and not len(obj):
+            if not has_element_children(obj) and \
+                    (len(obj) or fixed_value is None and obj.text):
                 # whitespace-only text: in decoding mode the content is an empty
                 # list, in validation-only mode it's a stripped text (issue: the
                 # two modes gave opposite verdicts for a fixed value constraint).
-                fixed_value = str(obj.text.strip())
+                # Comment and PI children (kept by lxml) are not element children
+                # and only split the character data of the element.
+                text = get_character_data(obj)
+                fixed_value = str(text.strip()) if text else None
 
-            if self.fixed is not None and \
-                    (len(obj) > 0 or fixed_value is not None and self.fixed != fixed_value):
+            if self.fixed is not None and (
+                    has_element_children(obj) or
+                    fixed_value is not None and self.fixed != fixed_value):
                 reason = _("must have the fixed value %r") % self.fixed
                 context.validation_error(validation, self, reason, obj)
 
